@@ -8,17 +8,17 @@ import (
 
 // Execution is what one complete run of the harness body under one schedule produced.
 type Execution struct {
-	Choices  []int    `json:"choices"` // choice index at every recorded point (points with >= 2 enabled threads)
-	Points   []Point  `json:"-"`
-	Steps    int      `json:"steps"`
-	Threads  int      `json:"threads"`
-	Deadlock bool     `json:"deadlock,omitempty"`
-	Blocked  []string `json:"blocked,omitempty"`
-	Panic    string   `json:"panic,omitempty"`
-	Overrun  bool     `json:"overrun,omitempty"`
-	Hash     uint64   `json:"hash"` // fingerprint of the executed (thread, operation) sequence
-	Trace    []Step   `json:"trace,omitempty"`
-	Result   any      `json:"-"`
+	Choices  []int     `json:"choices"` // choice index at every recorded point (points with >= 2 enabled threads)
+	Points   []Point   `json:"-"`
+	Steps    int       `json:"steps"`
+	Threads  int       `json:"threads"`
+	Deadlock bool      `json:"deadlock,omitempty"`
+	Blocked  []Blocked `json:"blocked,omitempty"`
+	Panic    string    `json:"panic,omitempty"`
+	Overrun  bool      `json:"overrun,omitempty"`
+	Hash     uint64    `json:"hash"` // fingerprint of the executed (thread, operation) sequence
+	Trace    []Step    `json:"trace,omitempty"`
+	Result   any       `json:"-"`
 }
 
 // Preemptions counts the preemptions spent in choices[:n].
